@@ -577,6 +577,25 @@ def scenarios(ctx, facts, tier):
                 return None
         return f
 
+    def s_fault_replica():
+        # two replicas with the same inner instance and wire names under different parents; the fault is in the later one
+        D = Design(facts)
+        a, b = D.wire('a', 2), D.wire('b', 2)
+        D.make('Constant', 'ka', 1, a)
+        D.make('Constant', 'kb', 1, b)
+        x1 = D.make('Xor2', 'lane0', a, b, D.wire('r0', 2))
+        x2 = D.make('Xor2', 'lane1', a, b, D.wire('r1', 2))
+        inner = list(x2.attrs['children'].values())[2]
+        ws = inner.attrs.get('_wires', {})
+        mid = ws.get('Mid') or list(ws.values())[0]
+        mid.attrs['source'] = None
+        try:
+            integrity(D, D.sys)
+            return 'an undriven wire in the second of two identically named replicas is accepted'
+        except (ElabRaise, PyExc):
+            return None
+
+    attempt('integrity: undriven wire in a later replica with repeated names', s_fault_replica)
     attempt('second driver from another block', s_double_driver)
     attempt('second driver from the same block', s_double_driver_same_block)
     attempt('duplicate child name', s_duplicate_child)
